@@ -85,7 +85,7 @@ def _content(d):
 def ident(t):
     def rec(h):
         return [(id(c), id(c.data), c.data_id, getattr(c, "kind", None), dict(c.meta) if c.meta else None, id(c.parent), id(c.tree),
-                 _content(c.data), rec(c))
+                 _content(c.data), c.is_leaf(), rec(c))
                 for c in h.children]
 
     return (t.count, rec(t))
@@ -424,6 +424,21 @@ def _(case, F):
     fy = F(lambda n: -len(n.children))
     t, nodes = _build(case)
     return [t], (lambda: (nodes[0] if nodes else t.system_root).sort_children(key=fy, deep=True, reverse=True)), False, fy
+
+
+@cell("sortkey:typed_sort")
+def _(case, F):
+    # a typed tree whose siblings have interleaved kinds; the sort is deep, the key fails somewhere in the middle
+    fy = F(lambda n: str(n.data)[::-1])
+    t, nodes = _build(case, typed=True)
+    return [t], (lambda: t.sort(key=fy, deep=True)), False, fy
+
+
+@cell("sortkey:typed_sort_children")
+def _(case, F):
+    fy = F(lambda n: (len(n.children), str(n.data)))
+    t, nodes = _build(case, typed=True)
+    return [t], (lambda: (nodes[0] if nodes else t.system_root).sort_children(key=fy, reverse=True)), False, fy
 
 
 # ---- visitor role -------------------------------------------------------------------------------------
